@@ -422,8 +422,8 @@ def cases(tier: str, seed: int):
     quick = tier == 'quick'
     out = []
     wd = 75.0 if quick else 850.0
-    out.append(('stress', {'readers': 4 if quick else 8, 'registrars': 2 if quick else 4, 'iters': 400 if quick else 10000,
-                           'reg_iters': 10000 if quick else 250000, 'watchdog': wd, 'seed': seed}, _STRESS_BODY))
+    out.append(('stress', {'readers': 4 if quick else 8, 'registrars': 2 if quick else 4, 'iters': 400 if quick else 3000,
+                           'reg_iters': 10000 if quick else 60000, 'watchdog': wd, 'seed': seed}, _STRESS_BODY))
     for hook in ('showwarning', 'meta_repr', 'meta_getattribute'):
         for two in (False, True):
             out.append((f'reentry/{hook}/{"two_threads" if two else "same_thread"}',
